@@ -119,6 +119,18 @@ fn spawn_worker() -> Worker {
 }
 
 static WORKERS: Mutex<Vec<Worker>> = Mutex::new(Vec::new());
+/// workers currently held at `wake:stored` (so that a panicking case cannot leave one behind)
+static HELD: Mutex<Vec<usize>> = Mutex::new(Vec::new());
+
+fn release_stale_workers() {
+    let held: Vec<usize> = std::mem::take(&mut *HELD.lock().unwrap());
+    for k in held {
+        with_worker(k, |w| {
+            let _ = w.go_tx.send(());
+            let _ = w.msg_rx.recv();
+        });
+    }
+}
 
 fn with_worker<R>(i: usize, f: impl FnOnce(&Worker) -> R) -> R {
     let mut ws = WORKERS.lock().unwrap();
@@ -234,6 +246,7 @@ fn deliver(h: &HRef, k: usize, completion: bool, idx: u32, name: &'static str) {
                     Msg::Done => unreachable!("split wake finished without reaching wake:stored (hook H3 missing?)"),
                 }
             });
+            HELD.lock().unwrap().push(k);
             h.borrow_mut().phases[k] = Phase::Held;
         }
         (How::Split { .. }, true) => {
@@ -244,6 +257,7 @@ fn deliver(h: &HRef, k: usize, completion: bool, idx: u32, name: &'static str) {
                     Msg::Stored => unreachable!(),
                 }
             });
+            HELD.lock().unwrap().retain(|x| *x != k);
             h.borrow_mut().phases[k] = Phase::Done;
         }
     }
@@ -314,6 +328,7 @@ pub struct Outcome {
 }
 
 pub fn execute(case: &RunCase) -> Outcome {
+    release_stale_workers();
     let n = case.wakes.len();
     let h: HRef = Rc::new(RefCell::new(H {
         case: case.clone(),
@@ -393,10 +408,9 @@ pub fn execute(case: &RunCase) -> Outcome {
                 (at, "parked")
             };
             deliver(h, k, completion, idx, name);
-            if !completion {
-                if let How::Split { .. } = h.borrow().case.wakes[k].how {
-                    deliver(h, k, true, idx, name);
-                }
+            let how = h.borrow().case.wakes[k].how;
+            if !completion && matches!(how, How::Split { .. }) {
+                deliver(h, k, true, idx, name);
             }
             return true;
         }
@@ -514,7 +528,8 @@ pub fn execute(case: &RunCase) -> Outcome {
                                 break;
                             }
                             Poll::Pending => {
-                                if let Some(w) = h.borrow_mut().tick_blocked.take() {
+                                let blocked = h.borrow_mut().tick_blocked.take();
+                                if let Some(w) = blocked {
                                     w.wake();
                                 }
                             }
@@ -578,6 +593,9 @@ pub fn execute(case: &RunCase) -> Outcome {
 }
 
 pub fn run_case(case: &RunCase, obs: &mut Obs) -> Result<(), Fail> {
+    if std::env::var_os("VERIF_TRACE").is_some() {
+        eprintln!("case {}", vcommon::serde_json::to_string(case).unwrap());
+    }
     let out = execute(case);
     if let Some(f) = out.fail {
         return Err(f);
@@ -687,8 +705,8 @@ pub fn run(ctx: &mut Ctx) {
     ctx.rule = "C27: case = (entry point run()/run_available(), tick script [ticks that yield once / block on something external / \
         call schedule_subgraph(true) / report work], <=2 (3) wake events each = (global event index, inline | second OS thread | \
         second OS thread held between the flag store and task_waker.wake() until a later event index)). Events = every H3 program \
-        point of the runner + tick start/yield/block/end + 'runner parked'. Enumerated: ALL placements of 1 and 2 wakes over every \
-        event index up to the final park, for every tick script; random: 3 wakes, longer scripts. Oracle: at quiescence every wake \
+        point of the runner + tick start/yield/block/end + 'runner parked'. Enumerated: ALL placements of 1 and 2 wakes (any kinds) over every \
+        event index up to the final park, for every tick script, 3 inline wakes and 2 split wakes for the first scripts; random: 3 wakes, longer scripts. Oracle: at quiescence every wake \
         is followed by a tick start. Non-trivial = a wake placed in the window between run_available's last swap(false) and the \
         flag load after registration in run(), or a split wake. Distinct by case hash."
         .into();
@@ -698,32 +716,39 @@ pub fn run(ctx: &mut Ctx) {
     let tier = ctx.tier();
     ctx.floor = 100;
     let scripts = tick_scripts(tier);
+    let replay = ctx.is_replay();
     let mut cases: Vec<RunCase> = vec![];
-    for mode in [Mode::Run, Mode::RunAvailable] {
-        for tick in &scripts {
-            for kinds in [vec![0u8], vec![1], vec![2], vec![0, 0], vec![0, 1], vec![1, 0]] {
-                enumerate_wakes(mode, tick, &kinds, &mut cases);
+    if !replay {
+        for mode in [Mode::Run, Mode::RunAvailable] {
+            for tick in &scripts {
+                for kinds in [vec![0u8], vec![1], vec![2], vec![0, 0], vec![0, 1], vec![1, 0], vec![1, 1]] {
+                    enumerate_wakes(mode, tick, &kinds, &mut cases);
+                }
             }
         }
-    }
-    ctx.check_all("wakes-1-and-2-all-placements", cases, run_case);
-    // one split + one atomic, both orders; two splits
-    let mut cases: Vec<RunCase> = vec![];
-    let split_scripts: Vec<TickScript> = match tier {
-        Tier::Quick => scripts.iter().take(3).cloned().collect(),
-        Tier::Thorough => scripts.clone(),
-    };
-    for tick in &split_scripts {
-        for kinds in [vec![2u8, 0], vec![0, 2]] {
-            enumerate_wakes(Mode::Run, tick, &kinds, &mut cases);
+        // three atomic wakes on the simplest scripts
+        for tick in scripts.iter().take(tier.pick(2, 6)) {
+            enumerate_wakes(Mode::Run, tick, &[0, 0, 0], &mut cases);
         }
     }
-    for tick in split_scripts.iter().take(tier.pick(1, 4)) {
-        enumerate_wakes(Mode::Run, tick, &[2, 2], &mut cases);
+    ctx.check_all("wakes-1-2-3-all-placements", cases, run_case);
+    // one split + one atomic, both orders; two splits
+    let mut cases: Vec<RunCase> = vec![];
+    if !replay {
+        for mode in [Mode::Run, Mode::RunAvailable] {
+            for tick in &scripts {
+                for kinds in [vec![2u8, 0], vec![0, 2]] {
+                    enumerate_wakes(mode, tick, &kinds, &mut cases);
+                }
+            }
+        }
+        for tick in scripts.iter().take(tier.pick(2, 6)) {
+            enumerate_wakes(Mode::Run, tick, &[2, 2], &mut cases);
+        }
     }
     ctx.check_all("wakes-2-with-split-all-placements", cases, run_case);
 
-    let n = tier.pick(20_000u32, 400_000u32);
+    let n = tier.pick(100_000u32, 2_000_000u32);
     let how = prop_oneof![
         2 => Just(0u8),
         1 => Just(1u8),
